@@ -186,7 +186,16 @@ def run(tier, seed):
             continue
         i = by[v["scen"]]
         sc, tr = chk.scen[i], chk.traces[i]
-        rec = {"invariant": v["inv"], "engine": sc["engine"], "features": sc["features"], "what": v["what"],
+        derived = []
+        ac = next((e["n"] for e in tr if e["ev"] == "ApplyCall"), None)
+        if ac is not None:
+            first_open = {}
+            for e in tr:
+                if e["ev"] == "Open" and e.get("kind") == "processor" and e.get("ok") and e.get("geni"):
+                    first_open.setdefault(e["conn"], e["n"])
+            if any(first_open.get(p["id"], 10 ** 9) > ac for p in sc["procs"]):
+                derived.append("apply-during-startup")   # some processor node had not opened yet when the apply began
+        rec = {"invariant": v["inv"], "engine": sc["engine"], "features": sorted(set(sc["features"]) | set(derived)), "what": v["what"],
                "scenario": sc["id"], "at": v["at"]}
         chk.verdict.add(rec, lambda sc=sc, tr=tr, rec=rec: vlib.write_replay(
             PROP, sc["id"], sc, [{k: x for k, x in e.items() if k != "goroutines"} for e in tr
